@@ -859,6 +859,9 @@ func runG2(c *Ctx, e *nilEngine) {
 						c.Proved("G2", fname, construct, p.ipos(in), why)
 					} else {
 						o := c.Violated("G2", fname, construct, p.ipos(in), "slice bounds not proven: "+why)
+						if c.partitionTrimException(x) {
+							o.Exception = partitionTrimReason
+						}
 						c.applyException(o)
 					}
 					continue
@@ -1008,6 +1011,27 @@ func (bp *boundsProver) indexMapLemma(idx, seq ssa.Value, at ssa.Instruction) bo
 	default:
 		return false
 	}
+	// the lookup may sit in a helper that receives both the map and the slice from the function that built them:
+	// move to the (single) call site
+	for hop := 0; hop < 3; hop++ {
+		pm, isPM := m.(*ssa.Parameter)
+		ps, isPS := seq.(*ssa.Parameter)
+		if !isPM || !isPS || pm.Parent() != ps.Parent() {
+			break
+		}
+		g := pm.Parent()
+		callers := bp.c.P.Callers(g)
+		if len(callers) != 1 || hasDelete(g, pm) || hasMapUpdate(g, pm) {
+			return false
+		}
+		site, isInstr := callers[0].Site.(ssa.Instruction)
+		args := callers[0].Site.Common().Args
+		im, is := paramIndex(pm), paramIndex(ps)
+		if !isInstr || im < 0 || is < 0 || im >= len(args) || is >= len(args) {
+			return false
+		}
+		m, seq, at = args[im], args[is], site
+	}
 	mk, ok := m.(*ssa.MakeMap)
 	if !ok {
 		return false
@@ -1131,6 +1155,17 @@ func (bp *boundsProver) sortClosureIndex(f *ssa.Function, seq, idx ssa.Value) bo
 				if sc == tc {
 					return true
 				}
+			}
+		}
+	}
+	return false
+}
+
+func hasMapUpdate(fn *ssa.Function, m ssa.Value) bool {
+	for _, b := range fn.Blocks {
+		for _, in := range b.Instrs {
+			if mu, ok := in.(*ssa.MapUpdate); ok && mu.Map == m {
+				return true
 			}
 		}
 	}
